@@ -37,3 +37,9 @@ check('C10', 'exploration', 'property-based testing: expression grammar x hit hi
       'stream (rejected hits consume nothing). Watches, log fields, metric expressions and labels are compared with the '
       'oracle\'s eval in the frame\'s own globals/locals; agent-only names must fail; failures must be error results.',
       'Hits driven via trace_call on suspended-generator frames of a host module with its own globals.')
+check('C04', 'exploration', 'property-based testing: hit-time histories vs reference limiter; harness-owned overlap schedules (inline re-entrancy + gated threads)',
+      'Sequential histories on a virtual clock (gaps on and around the period boundary, unparsable settings, windows) are '
+      'compared hit by hit with a reference limiter in both directions. Overlapping hits are produced by running the '
+      '"other thread\'s" hit inside the first at its yield points (clock read, host __str__ during collection) and with '
+      'gated real threads; bounds (count, spacing, all-allowed-must-collect) are asserted.',
+      'Overlap at call-out granularity only; three known findings (overlap during collection x2, window args dropped).')
